@@ -628,6 +628,13 @@ func generate(repo, out string) error {
 		return err
 	}
 
+	// 4h. the filter dispatch in front of the kernels as terms of QF.DE (dast.go)
+	if err := writeIfChanged(filepath.Join(out, "Dispatch.lean"), []byte(dispatchLean(repo, colPkgs, fconsts, strs, func(p string) map[string]*ast.File {
+		return parseDir(filepath.Join(repo, "internal", p))
+	}))); err != nil {
+		return err
+	}
+
 	// 4e. the row hash functions as terms of QF.HE (hast.go)
 	if err := writeIfChanged(filepath.Join(out, "Hash.lean"), []byte(hashLean(colPkgs, pkgFns))); err != nil {
 		return err
